@@ -262,6 +262,20 @@ def roundtrip(ctx, geo, case, tag):
         return False
     if geo.unit_type.strip():
         check_feet_file(ctx, geo, fn1, case, tag)
+    if geo.num_columns <= 1500:
+        # the file read into an object that already holds a geometry (the same one, read a moment ago: same header,
+        # so no blank header field can pick up anything else): what is read replaces what was there
+        with ctx.guard(case, where='read-into-used-object') as g:
+            g3 = mg.mulgrid(fn1)
+            g3.read(fn1)
+        if g.raised is None:
+            ctx.count('reads_into_used_object')
+            for kind, what in diff_models(model_of(g1), model_of(g3)):
+                ctx.violation('%s:read-into-used-object:%s' % (tag, kind), 'read() into an object holding the written geometry: ' + what, case)
+                return False
+            if list(g3.block_name_list) != list(g1.block_name_list):
+                ctx.violation('%s:read-into-used-object:block-name-list' % tag, 'block name list differs from that of a fresh reader', case)
+                return False
     return True
 
 
